@@ -59,6 +59,10 @@ func ScanNondeterminism(fn *ssa.Function) []NDHit {
 				cv := &callView{Call: *cc}
 				n := CallName(&cv.Call)
 				switch {
+				case (n == "builtin:append" || n == "builtin:copy") && len(cv.Call.Args) > 0 && sliceOfGlobal(cv.Call.Args[0], 0) != nil:
+					// append/copy into a (re-sliced) package-level slice writes its backing array in place
+					g := sliceOfGlobal(cv.Call.Args[0], 0)
+					add("global-store", in, n[len("builtin:"):]+" into the backing array of package variable "+g.Pkg.Pkg.Name()+"."+g.Name())
 				case n == "time.Now" || n == "time.Since" || n == "time.Until" || strings.HasSuffix(n, "utility.GetTime"):
 					add("clock", in, n)
 				case strings.HasPrefix(n, "math/rand.") || strings.HasPrefix(n, "(*math/rand.") || strings.HasPrefix(n, "crypto/rand."):
@@ -307,6 +311,34 @@ func LoopOfRange(rg *ssa.Range) *RangeLoop {
 // globalRoot returns the package variable an address or container value is
 // rooted at: the variable itself, a field/element of it, or a field/element
 // reached through the pointer/map/slice it holds.
+// sliceOfGlobal: v is a package-level slice or a re-slice of one (possibly
+// through the phi of an append loop that started from such a re-slice).
+func sliceOfGlobal(v ssa.Value, depth int) *ssa.Global {
+	if depth > 6 {
+		return nil
+	}
+	switch x := v.(type) {
+	case *ssa.Slice:
+		return sliceOfGlobal(x.X, depth+1)
+	case *ssa.UnOp:
+		if x.Op == token.MUL {
+			if g, ok := x.X.(*ssa.Global); ok {
+				return g
+			}
+		}
+	case *ssa.Phi:
+		for _, e := range x.Edges {
+			if e == v {
+				continue
+			}
+			if g := sliceOfGlobal(e, depth+1); g != nil {
+				return g
+			}
+		}
+	}
+	return nil
+}
+
 func globalRoot(v ssa.Value) *ssa.Global {
 	for i := 0; i < 8; i++ {
 		switch x := v.(type) {
